@@ -177,7 +177,7 @@ Definition OB (height : Z) (rest main hash : N) (size : Z) (txs : string) : oblo
   mkOb height rest main hash size (hx txs).
 Definition PT (id : N) (gc : Z) (hdr : string) : ptx := mkPtx id gc (hx hdr).
 Definition XC (hs sh : string) (timeout shcap : Z) (disabled : bool) (minsize : Z) : xcfg :=
-  mkXC (hx hs) (hx sh) (mkCfg 2147483648 timeout []) shcap disabled minsize.
+  mkXC (hx hs) (hx sh) (mkCfg 2147483648 timeout [] false) shcap disabled minsize.
 Definition OA (alive : bool) (k : skind) (posts msgs : list eff) (pend : Z) (pushed : bool) : xobs :=
   mkXO alive k posts msgs pend pushed.
 Definition SD (t : Z) (from pub : N) (b : oblock) : xevent := XSend (t * 1000000000) from pub b.
